@@ -27,7 +27,7 @@ func checkC13(c *Ctx) {
 	r.Rule("R13.3", "counts: Dump = Walk's count; Walk +1 per successful callback; Restore +1 per stored record", 9)
 	r.Rule("R13.4", "Restore indexes the entry by its own key like Write", 3)
 	r.Rule("R13.5", "the expiry survives accessor round trips: ts is UnixNano and tsTime its exact inverse (also for 0)", 2)
-	r.Rule("R13.6", "dumped keys are the stored (private) keys; GobRegister registers the given value itself with encoding/gob", 4)
+	r.Rule("R13.6", "dumped keys are the stored (private) keys; GobRegister registers the given value itself with encoding/gob", 3)
 	r.NotDecided = []string{"encoding/gob's own behaviour", "round-trip equality of values", "partial import on a broken stream"}
 	info := c.Pkg.TypesInfo
 	c.withAlias(map[string]string{"R10.5": "R13.5"}, func() { c.c10TsInverse() })
@@ -250,6 +250,11 @@ func (c *Ctx) c13Counts(b BK, decodeTarget types.Object) {
 			continue
 		}
 		n, bad := 0, false
+		if b.Sharded {
+			if _, ok := c.shardCoverage("R13.3", wname, run.paths, false); !ok {
+				bad = true
+			}
+		}
 		for _, p := range run.paths {
 			if ev := countersStartAtZero(p); ev != nil {
 				r.Bad("R13.3", wname, "counter-not-zero", c.Pos(ev.Pos), "the entry counter does not start at 0", shortTrace(p))
@@ -299,9 +304,23 @@ func (c *Ctx) c13Counts(b BK, decodeTarget types.Object) {
 					}
 				}
 				if cb == nil {
+					if g.overData {
+						r.Bad("R13.3", wname, "entry-not-visited", c.Pos(g.begin.Pos), "an iterated entry is not handed to the callback", shortTrace(p))
+						bad = true
+					}
 					continue
 				}
 				n++
+				if len(cb.Args) == 1 {
+					a := cb.Args[0]
+					for a != nil && (a.Kind == pw.KConv || a.Kind == pw.KAssert) {
+						a = a.Src
+					}
+					if !(a != nil && (a.Kind == pw.KRangeVal || a.Kind == pw.KParam && g.begin.Note == "Range")) {
+						r.Bad("R13.3", wname, "walk-argument", c.Pos(cb.Pos), "the callback is not given the iterated stored entry", shortTrace(p))
+						bad = true
+					}
+				}
 				errNil := nilTri(p, cb.Results[0])
 				want := 1
 				if errNil == triFalse {
